@@ -394,7 +394,14 @@ fn access_matrix(e: &mut Eng, thorough: bool) {
     // Sha256 for every byte length
     let base = vmgen::base_case(&mut r);
     let maxlen = if thorough { 200 } else { 80 };
-    for len in 0..=maxlen {
+    // every small length, and windows around the places where a block-wise implementation switches:
+    // multiples of 64 bytes (SHA block), of 512 bytes (64 words), and the largest message the stack can hold
+    let mut lens: Vec<usize> = (0..=maxlen).collect();
+    for centre in [128usize, 192, 256, 512, 1024, 1536, 2048, 4096, 8192, 16384, 32256, 32760] {
+        lens.extend(centre - 9..=centre + 9);
+    }
+    lens.retain(|l| *l <= 4094 * 8);
+    for len in lens {
         if !e.mine() {
             continue;
         }
@@ -591,6 +598,7 @@ pub fn run(args: &Args, rep: &mut Report) {
             // result shapes at the limits) and control flow (jump distances, repeat counts, nesting at the limit)
             read_matrix(&mut e, thorough);
             control_matrix(&mut e, thorough);
+            access_matrix(&mut e, thorough);
             random_cases(&mut e, Focus::General, scale(40_000, 1_500_000), ls, &[], "random");
             random_cases(&mut e, Focus::StateRead, scale(6_000, 200_000), ls, &[], "random-reads");
             random_cases(&mut e, Focus::Compute, scale(6_000, 200_000), ls, &[], "random-compute");
